@@ -47,7 +47,35 @@ func (obj Symbol) Readably(b []byte, p *Printer) []byte {
 			return append(b, '|')
 		}
 	}
+	if obj.readsAsOther() {
+		b = append(b, '|')
+		b = append(b, p.caseName(string(obj))...)
+		return append(b, '|')
+	}
 	return append(b, p.caseName(string(obj))...)
+}
+
+// readsAsOther returns true if the name, written without bars, is read as
+// something other than this symbol: a number or a time. (The symbol t is the
+// value true in many places and is left alone.)
+func (obj Symbol) readsAsOther() (other bool) {
+	switch obj[0] {
+	case '0', '1', '2', '3', '4', '5', '6', '7', '8', '9', '+', '-', '.', '@':
+	default:
+		return false
+	}
+	if obj == "." {
+		return true
+	}
+	defer func() {
+		if recover() != nil {
+			other = true // not even a token the reader takes
+		}
+	}()
+	r := reader{rbase: 10, intRx: intRxs[10], ratioRx: ratioRxs[10], floatType: DoubleFloatSymbol}
+	_, isSym := r.resolveToken([]byte(obj)).(Symbol)
+
+	return !isSym
 }
 
 // Simplify the Object into a string.
